@@ -221,6 +221,13 @@ pub struct RelayCase {
     /// only demand "identical or absent", not completion (more than one loss)
     #[serde(default)]
     pub completion_optional: bool,
+    /// value of tftpc's -t (the timeout it negotiates), seconds
+    #[serde(default = "one")]
+    pub timeout_s: u8,
+}
+
+fn one() -> u8 {
+    1
 }
 
 fn run_relay(dir: &Path, c: &RelayCase) -> Result<(), (String, String)> {
@@ -250,7 +257,7 @@ fn run_relay(dir: &Path, c: &RelayCase) -> Result<(), (String, String)> {
     let front_port = front.local_addr().unwrap().port();
     front.set_read_timeout(Some(Duration::from_millis(5))).unwrap();
     back.set_read_timeout(Some(Duration::from_millis(5))).unwrap();
-    let mut cargs = vec![wire::s("f.bin"), wire::s("-i"), wire::local_ip(), wire::s("-p"), front_port.to_string(), wire::s("-b"), c.blk.to_string(), wire::s("-w"), c.ws.to_string(), wire::s("-t"), wire::s("1")];
+    let mut cargs = vec![wire::s("f.bin"), wire::s("-i"), wire::local_ip(), wire::s("-p"), front_port.to_string(), wire::s("-b"), c.blk.to_string(), wire::s("-w"), c.ws.to_string(), wire::s("-t"), c.timeout_s.to_string()];
     if c.upload {
         cargs.push(wire::s("-u"));
     } else {
@@ -335,10 +342,11 @@ fn run_relay(dir: &Path, c: &RelayCase) -> Result<(), (String, String)> {
                 break;
             }
         }
-        if t0.elapsed() > Duration::from_secs(25) {
+        let watchdog = 25 + 3 * c.timeout_s as u64;
+        if t0.elapsed() > Duration::from_secs(watchdog) {
             let _ = child.kill();
             let _ = child.wait();
-            return Err(("client-hung".into(), format!("tftpc did not finish within 25 s ({} datagrams dropped by the relay)", dropped)));
+            return Err(("client-hung".into(), format!("tftpc did not finish within {} s ({} datagrams dropped by the relay)", watchdog, dropped)));
         }
     }
     let cerr = std::fs::read_to_string(&err_p).unwrap_or_default();
@@ -369,7 +377,7 @@ fn run_relay(dir: &Path, c: &RelayCase) -> Result<(), (String, String)> {
         return Err((
             "transfer-failed-after-few-losses".into(),
             format!(
-                "{} of {} bytes through a relay that dropped {} datagram(s) (to client {:?}, to server {:?}; dups {:?}/{:?}, swaps {:?}/{:?}; negotiated timeout 1 s, retry budget 6): the receiving side holds nothing after {:?}; tftpc stderr {:?}; tftpd stderr {}",
+                "{} of {} bytes through a relay that dropped {} datagram(s) (to client {:?}, to server {:?}; dups {:?}/{:?}, swaps {:?}/{:?}; negotiated timeout {} s, retry budget 6): the receiving side holds nothing after {:?}; tftpc stderr {:?}; tftpd stderr {}",
                 if c.upload { "upload" } else { "download" },
                 data.len(),
                 dropped,
@@ -379,6 +387,7 @@ fn run_relay(dir: &Path, c: &RelayCase) -> Result<(), (String, String)> {
                 c.dup_to_server,
                 c.swap_to_client,
                 c.swap_to_server,
+                c.timeout_s,
                 t0.elapsed(),
                 cerr.trim(),
                 serr
@@ -427,11 +436,16 @@ pub fn relay_cases(thorough: bool) -> Vec<RelayCase> {
             vec![(vec![], vec![]), (vec![1], vec![]), (vec![2], vec![]), (vec![3], vec![]), (vec![], vec![2]), (vec![], vec![3])]
         };
         for (tc, ts) in single {
-            out.push(RelayCase { upload, drop_to_client: tc.clone(), drop_to_server: ts.clone(), blk: 64, ws: 1, len: 64 * 5 + 7, dup_to_client: vec![], dup_to_server: vec![], swap_to_client: vec![], swap_to_server: vec![], completion_optional: false });
+            out.push(RelayCase { upload, drop_to_client: tc.clone(), drop_to_server: ts.clone(), blk: 64, ws: 1, len: 64 * 5 + 7, dup_to_client: vec![], dup_to_server: vec![], swap_to_client: vec![], swap_to_server: vec![], completion_optional: false, timeout_s: 1 });
             if thorough {
-                out.push(RelayCase { upload, drop_to_client: tc, drop_to_server: ts, blk: 512, ws: 3, len: 512 * 7, dup_to_client: vec![], dup_to_server: vec![], swap_to_client: vec![], swap_to_server: vec![], completion_optional: false });
+                out.push(RelayCase { upload, drop_to_client: tc.clone(), drop_to_server: ts.clone(), blk: 512, ws: 3, len: 512 * 7, dup_to_client: vec![], dup_to_server: vec![], swap_to_client: vec![], swap_to_server: vec![], completion_optional: false, timeout_s: 1 });
             }
         }
+    }
+    if thorough {
+        // a long negotiated timeout and one lost datagram (about 30 s each, real time): the transfer waits for the retransmission
+        out.push(RelayCase { upload: true, drop_to_client: vec![], drop_to_server: vec![1], blk: 64, ws: 1, len: 64 * 2 + 7, dup_to_client: vec![], dup_to_server: vec![], swap_to_client: vec![], swap_to_server: vec![], completion_optional: false, timeout_s: 28 });
+        out.push(RelayCase { upload: false, drop_to_client: vec![1], drop_to_server: vec![], blk: 64, ws: 1, len: 64 * 2 + 7, dup_to_client: vec![], dup_to_server: vec![], swap_to_client: vec![], swap_to_server: vec![], completion_optional: false, timeout_s: 31 });
     }
     out
 }
@@ -459,6 +473,7 @@ pub fn relay_strategy(upload: bool) -> proptest::strategy::BoxedStrategy<RelayCa
                 swap_to_server: fix(ss),
                 // a reordered block is discarded by an in-order receiver, i.e. it acts like a loss: completion is only demanded for pure duplication
                 completion_optional: lossy || !sc_any || !ss_any,
+                timeout_s: 1,
             }
         })
         .boxed()
